@@ -334,6 +334,18 @@ class Exec:
         self.add(v == k)
         return k
 
+    def unique_value(self, v):
+        """the single feasible value of v under the path condition, or None if there are several"""
+        v = simp(v)
+        if not isinstance(v, z3.ExprRef):
+            return v
+        if self.check() != z3.sat:
+            return None
+        k = self.solver.model().eval(v, model_completion=True).as_long()
+        if self.check(v != k) == z3.unsat:
+            return k
+        return None
+
     def obligation(self, cond, kind, where, msg=''):
         """cond must hold on this path; checks path /\\ not cond."""
         self.stats['obligations'] += 1
@@ -405,6 +417,10 @@ class Exec:
         for n, c in enumerate(path):
             if isinstance(c, SymIdx):
                 rest = path[n + 1:]
+                if t is not None and self.T.kind(t) in ('ptr', 'slice', 'map', 'iface', 'func', 'chan'):
+                    # reference-typed element at a symbolic index: fork over the index
+                    k = self.concretize(c.term, 'symbolic index of reference-typed element', 4096)
+                    return self.load_path(v[k], rest, t)
                 vals = [self.load_path(v[i], rest, t) for i in range(c.lo, c.hi)]
                 return self.select_chain(c.term, c.lo, vals, t)
             v = v[c]
@@ -529,7 +545,17 @@ class Exec:
         a, b = self.ib(x), self.ib(y)
         if op in ('<<', '>>'):
             if isinstance(y, z3.ExprRef):
-                raise Unsupported('int-mode symbolic shift count')
+                k = self.unique_value(y)
+                if k is None:
+                    # several shift counts are possible: keep the shift as a power term (decidable only if
+                    # the value is never constrained - e.g. it is only formatted into a log message)
+                    p2 = z3.ToInt(z3.IntVal(2) ** y)
+                    if op == '<<':
+                        return z3.If(y < w, (a * p2) % M, 0)
+                    if sg:
+                        raise Unsupported('int-mode signed >>')
+                    return z3.If(y < w, a / p2, 0)
+                y = k
             if op == '<<':
                 return (a * (2 ** y)) % M if y < w else 0
             if sg:
@@ -543,9 +569,24 @@ class Exec:
             return (a * b) % M
         if op == '&':
             for u, v in ((a, y), (b, x)):
-                if not isinstance(v, z3.ExprRef) and (v & (v + 1)) == 0:
-                    return u % (v + 1)
-            raise Unsupported('int-mode & with non-mask constant')
+                if not isinstance(v, z3.ExprRef):
+                    if (v & (v + 1)) == 0:
+                        return u % (v + 1)
+                    # general constant: sum over the runs of one-bits
+                    r, bit = 0, 0
+                    while (v >> bit):
+                        if (v >> bit) & 1:
+                            lo = bit
+                            while (v >> bit) & 1:
+                                bit += 1
+                            r = r + ((u / (2 ** lo)) % (2 ** (bit - lo))) * (2 ** lo)
+                        else:
+                            bit += 1
+                    return r
+            raise Unsupported('int-mode & of two symbolic values')
+        if op == '|':
+            # only disjoint-bit ors can be expressed: x | c where x is known to be a multiple of 2^k > c
+            raise Unsupported('int-mode |')
         if op in ('<', '<=', '>', '>='):
             if sg:
                 a, b = self.isv(a, w), self.isv(b, w)
@@ -1534,6 +1575,9 @@ class Exec:
         if 'invoke' in ins:
             if self.spec:
                 raise SpecFail()
+            if self.T.named(ins['recvT']) == 'github.com/btcsuite/btclog.Logger':
+                regs[ins['r']] = None if not ins.get('rt') else self.zero(ins['rt'][0])
+                return
             regs[ins['r']] = self.invoke(self.val(ins['recv'], regs), ins['invoke'], args, ins, where, depth)
             return
         fn = ins['fn']
